@@ -4,6 +4,7 @@ package seq
 
 import (
 	"bytes"
+	"errors"
 	"fmt"
 	"math/big"
 	"regexp"
@@ -146,9 +147,14 @@ func (d *Driver) Call(t int, fn func() (*Msg, error)) {
 	}()
 }
 
+// ErrPanic stands for a runtime panic inside an API call that the harness recovered (error class 98).
+var ErrPanic = errors.New("panic in API call (recovered by the harness)")
+
 // ErrCode maps an error to the model's error classes.
 func ErrCode(err error) int {
 	switch err {
+	case ErrPanic:
+		return 98
 	case mangos.ErrClosed:
 		return 1
 	case mangos.ErrSendTimeout:
